@@ -81,6 +81,23 @@ CHECKS = {
              "objects and independently of the (symbolic integer) sample counts; for ALL data vectors in [-2,2]^n (incl. non-normalised) the estimate satisfies the normal equations A^T(Av+b-f)=0; "
              "sequence estimation equals single estimation element-wise. inv(A^T A) is concrete LAPACK on the concrete tester model.",
         design_ref="DESIGN.md 3/C09"),
+    "C10": dict(
+        technique="symbolic execution of the real estimators / algorithm configuration with uninterpreted constraint projections, loss and gradient + z3 (QF_UFLRA) congruence; end-to-end run with real projections under the spectral parametrisation",
+        category="other",
+        text="(1) ProjectedLinearEstimator on symbolic data returns exactly to_var(physical projection, in the requested order, of the linear estimate) (projections uninterpreted, Dykstra "
+             "unrolled through its own max_iteration); (2) set_constraint_from_standard_qt_and_option picks, for every flag combination and also on a RE-USED algorithm object, the "
+             "documented projection (applied to a symbolic variable vector); (3) all three algorithms start from the origin object's variables, which are physical; (4) exact data of a physical "
+             "1-qubit state / 2-3-outcome POVM (symbolic spectrum incl. boundary) -> the projected linear estimator returns that object, with the REAL projections. That every iterate is a "
+             "projected point / convex combination is decided in C11's step obligations. Convergence of the physical projection and accuracy to thresholds are outside.",
+        design_ref="DESIGN.md 3/C10"),
+    "C11": dict(
+        technique="symbolic execution of one to two iterations of the real optimisers from an arbitrary start with loss value, gradient and projection as uninterpreted functions + z3 (UFLRA; exact NRA on the UF-free abstraction for the descent lemma)",
+        category="other",
+        text="Backtracking: every new iterate is x + alpha (P(x - g/mu) - x) with alpha = 2^-j (convex combination of feasible points), the Armijo exit condition holds, and together with the "
+             "nearest-point axiom instance of P it implies f(x_next) <= f(x) (loss never increases); the four stopping modes compute the documented quantities over the history window and the loop "
+             "stops exactly when the windowed sum <= eps; histories are consistent. Momentum and FISTA update rules equal their reference recurrences. One inductive step from an arbitrary state covers "
+             "runs of any length. NOT claimed: that the limit is the constrained optimum, agreement with the CVXPY/SCS estimator (external C solver), alpha halving deeper than the unrolled depth.",
+        design_ref="DESIGN.md 3/C11"),
     "C12": dict(
         technique="symbolic execution of the real loss classes with symbolic variables, increments, data and weights + z3 (polynomial identities under monomial relaxation; ln uninterpreted; quotient lemmas proved by exact NRA)",
         category="other",
